@@ -1246,7 +1246,7 @@ def cmd_check(args):
                     if pb:
                         results[o.id]["playback"] = pb
         vt.join()
-        rc = report(prop, tier, seed, sel, results, stage_record, verus_record, cfiles, units, t_start)
+        rc = report(prop, tier, seed, sel, results, stage_record, verus_record, cfiles, units, t_start, partial=bool(only or all_status))
     finally:
         if not keep:
             shutil.rmtree(scratch, ignore_errors=True)
@@ -1363,7 +1363,7 @@ def run_kani(kani_obs, scratch, results, stage_record, extra_tests=None, playbac
     return stage
 
 
-def report(prop, tier, seed, sel, results, stage_record, verus_record, cfiles, units, t_start):
+def report(prop, tier, seed, sel, results, stage_record, verus_record, cfiles, units, t_start, partial=False):
     known = load_known()
     accepted, refuted, undecided = [], [], []
     for ob in sel:
@@ -1470,8 +1470,10 @@ def report(prop, tier, seed, sel, results, stage_record, verus_record, cfiles, u
         cov["explanation"] = (cov["explanation"] + " Only bounded obligations exist for this tier; nothing is counted as proved.").strip()
     ev = {"property_id": prop, "tier": tier, "seed": seed, "level": level, "coverage": cov,
           "assumptions": assumptions, "wall_s": round(time.time() - t_start, 1), "violations": len(violations)}
-    EVIDENCE.mkdir(parents=True, exist_ok=True)
-    (EVIDENCE / (prop + ".json")).write_text(json.dumps(ev, indent=1, default=str))
+    # a run restricted with --only / --all-status is a development aid: it must not overwrite the property's evidence file
+    evdir = (EVIDENCE / "partial") if partial else EVIDENCE
+    evdir.mkdir(parents=True, exist_ok=True)
+    (evdir / (prop + ".json")).write_text(json.dumps(ev, indent=1, default=str))
     log("%s tier=%s: %d obligations (%d complete, %d bounded, %d canaries): accepted=%d refuted=%d undecided=%d  wall=%.0fs"
         % (prop, tier, len(sel), len(proof_obs), len([o for o in real if o.bounded]), len(canaries), len(accepted),
            len(refuted), len(undecided), time.time() - t_start))
